@@ -133,6 +133,17 @@ func (a *apiWorld) apply(ev map[string]any) (msg string) {
 			h, _ := a.hours(g.GetTimeRange().Start)
 			a.held[[2]int{k, h/24 + 1}] = g
 		}
+	case "selectfail":
+		segs := vlib.Ints(vlib.List(ev, "segs"))
+		a.failOpen = "seg-" + a.dayStart(vlib.Int(ev, "bad")).Format("20060102")
+		got, err := a.db.SelectSegments(a.rangeOf(segs), true)
+		a.failOpen = ""
+		if err == nil {
+			for _, g := range got {
+				g.DecRef()
+			}
+			return fmt.Sprintf("SelectSegments succeeded (%d segments) although the shard tables of segment %d cannot be opened", len(got), vlib.Int(ev, "bad"))
+		}
 	case "release":
 		key := [2]int{vlib.Int(ev, "k"), vlib.Int(ev, "s")}
 		h, ok := a.held[key]
